@@ -2,6 +2,7 @@ package genprops
 
 import (
 	"fmt"
+	"path"
 	"strings"
 
 	"verifharness/ref"
@@ -15,6 +16,9 @@ import (
 type xmlBatch struct {
 	Files map[string]*ref.XDialect // by file name
 	Tops  []string                 // files to run the generator on
+	// Remote: the definitions are fetched by URL; an include is then an address relative to the file that includes it
+	// (local mode: relative to the directory the generator runs in)
+	Remote bool
 }
 
 var scalarTypes = []string{"double", "uint64_t", "int64_t", "float", "uint32_t", "int32_t", "uint16_t", "int16_t", "uint8_t", "int8_t", "char"}
@@ -408,6 +412,42 @@ func genBatch(r *vh.RNG, prefix string, nDialects int) *xmlBatch {
 	return b
 }
 
+// genRemoteBatch: a definition tree as it is published on a web server, with a sub-directory whose file has a relative
+// include of its own: root -> vendor/ext.xml -> base.xml (= vendor/base.xml), and root -> base.xml (another document of
+// the same name in the root directory); a second root in a sub-directory including "../" + a root-level file.
+func genRemoteBatch(r *vh.RNG, prefix string) *xmlBatch {
+	b := &xmlBatch{Files: map[string]*ref.XDialect{}, Remote: true}
+	ns := &nameSpace{used: map[string]bool{}}
+	ids := map[uint32]bool{}
+	mk := func(file string, tag string, includes ...string) *ref.XDialect {
+		x := &ref.XDialect{File: file, Includes: includes}
+		var id uint32
+		for {
+			id = uint32(r.Intn(1 << 24))
+			if !ids[id] {
+				ids[id] = true
+				break
+			}
+		}
+		x.Messages = []ref.XMessage{{ID: id, Name: genMsgName(r, ns), Fields: []ref.XField{{Type: "uint16_t", Name: "v_" + tag}, {Type: "uint32_t", Name: "w_" + tag}}}}
+		b.Files[file] = x
+		return x
+	}
+	sub := prefix + "vendor"
+	mk(prefix+"base.xml", "rootbase")
+	mk(sub+"/"+prefix+"base.xml", "vendorbase")
+	mk(sub+"/"+prefix+"ext.xml", "ext", prefix+"base.xml")
+	mk(sub+"/deep/"+prefix+"leaf.xml", "leaf", "../"+prefix+"ext.xml")
+	root := mk(prefix+"root.xml", "root", sub+"/"+prefix+"ext.xml", prefix+"base.xml")
+	root.Version = "3"
+	flat := mk(prefix+"flat.xml", "flat", prefix+"base.xml")
+	flat.Version = "2"
+	deep := mk(prefix+"deeproot.xml", "deeproot", sub+"/deep/"+prefix+"leaf.xml")
+	deep.Version = "5"
+	b.Tops = []string{root.File, flat.File, deep.File}
+	return b
+}
+
 // expected describes what the generator must produce for a top-level file.
 type expectedDialect struct {
 	PkgName   string
@@ -437,6 +477,9 @@ func (b *xmlBatch) expect(top string) *expectedDialect {
 		seen[f] = true
 		x := b.Files[f]
 		for _, inc := range x.Includes {
+			if b.Remote {
+				inc = path.Join(path.Dir(f), inc)
+			}
 			walk(inc)
 		}
 		if x.Version != "" {
